@@ -6,7 +6,9 @@ proof  : lean/Pyunicorn/Properties/C14.lean (kernel loops = chord / horizontal
          as state, the float32 kernel under order faithfulness, closeness and
          boundary-corrected measures under reversal, path lengths = least walks;
          round 3: betweenness-type measures under reversal, float kernel subgraph of the
-         exact graph, order invariance of the horizontal graph, loop bounds from the source)
+         exact graph, order invariance of the horizontal graph, loop bounds from the source;
+         round 4: rndF32 = binary32 round-to-nearest-even, monotone, scale-covariant; pathLen =
+         breadth-first search of C03's model; horizontal graph of float64 callers' data)
 tie    : exact correspondence of the Lean model (lean/Pyunicorn/Model/Visibility.lean)
          with the compiled kernels at the kernel boundary and with
          `VisibilityGraph` at the object level, on data whose float32 slope
@@ -630,6 +632,58 @@ def usable(x, t, big=False):
 # round 3: query-order histories on one object, hubs
 # --------------------------------------------------------------------------
 
+def enc_dist(D):
+    """path_lengths() in the driver's format (`inf` = unreachable)"""
+    return ";".join(",".join("inf" if np.isinf(v) else str(int(round(v))) for v in row)
+                    for row in D) or "-"
+
+
+def floyd_warshall(A):
+    """all-pairs least numbers of links of the observed adjacency (independent of the model)"""
+    n = len(A)
+    INF = float("inf")
+    d = [[0 if a == b else (1 if A[a][b] else INF) for b in range(n)] for a in range(n)]
+    for k in range(n):
+        for a in range(n):
+            for b in range(n):
+                if d[a][k] + d[k][b] < d[a][b]:
+                    d[a][b] = d[a][k] + d[k][b]
+    return np.array(d, dtype=float).reshape(n, n)
+
+
+def rnd32_pool(rng, count):
+    """rationals that are float64 numbers, aimed at the decisions of binary32 rounding: generic
+    doubles over the whole exponent range, exact ties between neighbouring binary32 numbers (even
+    and odd significands), the last binary32 step below a power of two (the rounding crosses an
+    exponent boundary), the subnormal grid 2^-149 and the normal / subnormal boundary"""
+    out = []
+    two = Fr(2)
+    for _ in range(count):
+        kind = rng.choice(["double", "tie", "near-tie", "boundary", "subnormal", "small-int"])
+        sgn = rng.choice([1, -1])
+        if kind == "double":
+            v = Fr(rng.getrandbits(52) | (1 << 52)) * two ** rng.randint(-205, 70)
+        elif kind == "tie":
+            m = rng.randrange(2 ** 23, 2 ** 24)
+            v = Fr(2 * m + 1) * two ** (rng.randint(-149, 100) - 1)
+        elif kind == "near-tie":
+            m = rng.randrange(2 ** 23, 2 ** 24)
+            v = (Fr(2 * m + 1) + rng.choice([1, -1]) * two ** -rng.randint(3, 27)) \
+                * two ** (rng.randint(-140, 100) - 1)
+        elif kind == "boundary":
+            k = rng.randint(-130, 100)
+            v = two ** k * (1 + rng.choice([-1, 1]) * two ** -rng.randint(22, 27)
+                            + rng.choice([0, 0, 1, -1]) * two ** -rng.randint(30, 50))
+        elif kind == "subnormal":
+            v = (Fr(rng.choice([0, 1, 2, 3, 5, 2 ** 22, 2 ** 23 - 1, 2 ** 23]))
+                 + Fr(rng.choice([0, 1, 2, 3]), 4) + rng.choice([0, 0, 1, -1]) * two ** -30) * two ** -149
+        else:
+            v = Fr(rng.randint(0, 2 ** 25))
+        if v != 0 and Fr(float(v)) == v:
+            out.append((kind, sgn * v))
+    return out
+
+
 OWN_METHODS = ["visibility_relations", "visibility_relations_horizontal", "visibility",
                "visibility_single", "retarded_degree", "advanced_degree",
                "retarded_local_clustering", "advanced_local_clustering", "retarded_closeness",
@@ -783,19 +837,23 @@ def run(ctx):
                 "(N <= 8), every ordered pair of the 16 own methods on one object, hubs of 130..520 samples, NaN at the "
                 "ends, timings in another float width / integer type than the values, nearly collinear data with exact "
                 "differences (float links subset of exact links), generic float64 data for the horizontal graph; "
+                "round 4: rndF32 against the machine's binary32 conversion / subtraction / division (ties, exponent "
+                "boundaries, subnormals), path_lengths() matrices (N <= 14, connected and disconnected); "
                 "distinct = distinct (request); non-trivial = at least 3 samples, not all equal")
     ctx.trusted = common.DEFAULT_TRUSTED + [
         "float32: kernelNR rndF32 (differences and quotient rounded to binary32, RNE, no overflow) is "
         "compared exactly with the compiled natural kernels on generic float32 data; theorem "
         "nvg_float32_eq_exact reduces it to the exact model under `Faithful`, which the Lean driver "
         "decides for the series of the exact correspondence (f32_exact selects them independently)",
-        "Network.path_lengths (igraph) is modelled by its specification pathLen (least number of links, "
-        "theorem path_lengths_are_least_walk_lengths)",
+        "Network.path_lengths: igraph's C implementation of distances() is third-party code; its model is the "
+        "breadth-first search Net.dist of property C03, proved equal to the specification pathLen (pathLen_is_bfs, "
+        "path_lengths_are_least_walk_lengths) and compared with path_lengths() of the objects",
         "retarded/advanced/trans betweenness: modelled by property C03's model of the kernel _nsi_betweenness; the "
         "reversal theorems are about the pair-dependency definition betwSpec; kernel model == definition is compared "
         "on every sampled case (driver), not proved",
-        "nvg_float_subgraph assumes a monotone rounding; rndF32 is not proved monotone (the theorem's conclusion is "
-        "checked on the compiled kernels for data with exact differences)"]
+        "binary32: rndF32 is proved round-to-nearest-even onto m*2^e (|m| < 2^24, e >= -149) and monotone; that the "
+        "machine's float arithmetic is this function is compared (rnd32 correspondence: conversion, subtraction, "
+        "division), overflow is outside the model"]
     ctx.proofs()
 
     # ---------------- the series pool ---------------------------------------
@@ -1002,6 +1060,7 @@ def run(ctx):
     oreqs, oimpl, ocases = [], [], []
     breqs, bimpl = [], []          # round 3: betweenness-type measures (kernel model and definition)
     hreqs, himpl = [], []          # visibility_relations*() called again on a live object
+    preqs, pimpl = [], []          # round 4: path_lengths() by breadth-first search
     objs = [p for p in pool if len(p[0]) >= 2]
     small = [p for p in objs if p[2].startswith("exhaustive")]
     rnd = [p for p in objs if not p[2].startswith("exhaustive")]
@@ -1058,6 +1117,25 @@ def run(ctx):
                              f"{int(missing)} {int(hor)}")
                 bimpl.append("|".join(b3 + b3))
                 ctx.count("object:with-betweenness")
+            # round 4: path_lengths() of the object against the BFS of the model (Net.dist, C03's
+            # model of graph.distances(); theorem pathLen_is_bfs) and against Floyd-Warshall on the
+            # observed adjacency (independent of the model)
+            if obs is not None and 2 <= n <= 14 and rng.random() < (0.12 if quick else 0.1):
+                D = np.array(obs["vg"].path_lengths(), dtype=float)
+                preqs.append(f"pl {enc_vals(xx)} {'-' if t is None else enc_vals(t)} "
+                             f"{int(missing)} {int(hor)}")
+                pimpl.append(enc_dist(D) + "|" + enc_dist(D))
+                ctx.count("object:with-path-lengths")
+                if np.isinf(D).any():
+                    ctx.count("object:with-path-lengths-disconnected")
+                if not np.array_equal(D, floyd_warshall(obs["A"])):
+                    ctx.fail(sig(missing, hor, "path-lengths", any(v is None for v in xx)),
+                             "path_lengths() of the VisibilityGraph is not the least number of links "
+                             "between the samples in its own adjacency",
+                             {"time_series": [enc_fr(v) for v in xx],
+                              "timings": None if t is None else [enc_fr(v) for v in t],
+                              "missing_values": missing, "horizontal": hor, "caller_array": form,
+                              "observed": enc_dist(D)})
             # multi-step history on the live object: every measure again in another order,
             # both visibility_relations*() methods called again (the one the constructor did
             # not use is a non-default path), the wrappers; nothing may change
@@ -1092,6 +1170,8 @@ def run(ctx):
     ctx.correspond("retarded/advanced/trans betweenness: C03's kernel model (retBetw, advBetw, transBetw) "
                    "== pair-dependency definition betwSpec == VisibilityGraph", breqs, bimpl)
     ctx.extra["betweenness_cases_compared"] = len(breqs)
+    ctx.correspond("path_lengths(): breadth-first search Net.dist (C03's model) == specification pathLen "
+                   "== VisibilityGraph.path_lengths()", preqs, pimpl)
     query_order_histories(ctx, VG, rng, ocases, quick)
     hub_cases(ctx, VG, rng, quick)
     # non-default verbosity: the constructor prints, the graph is the same
@@ -1313,6 +1393,56 @@ def run(ctx):
     ctx.correspond("Lean kernelH on the rndF32-converted series == VisibilityGraph(horizontal=True) on "
                    "float64 callers' data", hq, hi_)
     phase("float-subgraph+horizontal-float64")
+
+    # ---------------- round 4: rndF32 against the hardware ---------------------------------------
+    # rndF32 is proved to be round-to-nearest-even onto the binary32 numbers and monotone
+    # (rndF32_nearest, rndF32_is_binary32, rndF32_monotone).  Here the same function is compared
+    # with what the machine does in the three places the natural kernels round: the conversion to
+    # FIELD (float64 -> float32), the subtraction and the division of two float32 numbers.
+    qreqs, qimpl = [], []
+    pool32 = rnd32_pool(rng, 1500 if quick else 12000)
+    for k0 in range(0, len(pool32), 50):
+        chunk = pool32[k0:k0 + 50]
+        with np.errstate(all="ignore"):
+            hw = [Fr(float(np.float32(np.float64(float(v))))) for _, v in chunk]
+        qreqs.append("rnd32 " + enc_vals([v for _, v in chunk]))
+        qimpl.append(enc_vals(hw))
+        for kind, _ in chunk:
+            ctx.count("rnd32:conversion-" + kind)
+    ops = []
+    for _ in range(600 if quick else 6000):
+        ea, eb = rng.randint(-40, 40), rng.randint(-40, 40)
+        if rng.random() < 0.15:
+            ea, eb = rng.randint(-126, -80), rng.randint(20, 60)      # quotients down to subnormals
+        a = np.float32(rng.choice([1, -1]) * (rng.getrandbits(23) | (1 << 23))) * np.float32(2.0) ** ea
+        b = np.float32(rng.choice([1, -1]) * (rng.getrandbits(23) | (1 << 23))) * np.float32(2.0) ** eb
+        if rng.random() < 0.3:       # nearly equal operands: the difference cancels
+            b = np.nextafter(a, np.float32(rng.choice([-1, 1]) * np.inf), dtype=np.float32)
+            for _ in range(rng.randint(0, 40)):
+                b = np.nextafter(b, np.float32(np.inf), dtype=np.float32)
+        a, b = np.float32(a), np.float32(b)
+        if not (np.isfinite(a) and np.isfinite(b)) or a == 0 or b == 0:
+            continue
+        ops.append((a, b))
+    for k0 in range(0, len(ops), 25):
+        chunk = ops[k0:k0 + 25]
+        ex, hw = [], []
+        for a, b in chunk:
+            fa, fb = Fr(float(a)), Fr(float(b))
+            with np.errstate(all="ignore"):
+                d32, q32 = np.float32(a - b), np.float32(a / b)
+            if not (np.isfinite(d32) and np.isfinite(q32)):
+                continue
+            ex += [fa - fb, fa / fb]
+            hw += [Fr(float(d32)), Fr(float(q32))]
+            ctx.count("rnd32:subtraction+division")
+        if ex:
+            qreqs.append("rnd32 " + enc_vals(ex))
+            qimpl.append(enc_vals(hw))
+    ctx.correspond("Lean rndF32 == binary32 arithmetic of the machine (float64 -> float32 conversion, "
+                   "float32 subtraction and division; ties, exponent boundaries, subnormals)", qreqs, qimpl)
+    ctx.extra["rnd32_values_compared"] = len(pool32) + 2 * len(ops)
+    phase("rndF32-vs-hardware")
 
 
 def replay(ctx, rp):
